@@ -638,6 +638,9 @@ def run_panel(rng, quick):
         dict(D=2, opt=5.0, cons="ball", budget=50, n_search=64),
         dict(D=2, opt=5.0, cons="half", budget=50, n_search=512),
         dict(D=3, opt=3.0, cons="ball", budget=50, n_search=32),
+        # an initial design that is DENSE relative to the search grid: snapping to the grid creates coincident design points
+        dict(D=2, opt=1.0, cons=None, budget=60, n_search=64, opts=dict(fun_eval_start=32, search_grid_number=2)),
+        dict(D=1, opt=1.0, cons=None, budget=80, n_search=64, opts=dict(fun_eval_start=64, search_grid_number=3)),
     ]
     if not quick:
         P += [dict(D=2, opt=5.0, cons=None, budget=150, n_search=None),
@@ -701,6 +704,7 @@ def traced_run(p):
         opts = {"display": "off", "random_seed": p["seed"], "max_fun_evals": p["budget"]}
         if p.get("n_search"):
             opts["n_search"] = p["n_search"]
+        opts.update(p.get("opts", {}))
         one = np.ones(D)
         bads = BADS(counted, np.zeros(D), -3.0 * one, 3.0 * one, -2.0 * one, 2.0 * one,
                     non_box_cons=nbc, options=opts)
